@@ -15,6 +15,9 @@ ORACLE_OF = {
     'C03': ['brackets'],
     'C05': ['retry-sequencing', 'retry-not-before-delay', 'others-run-during-retry-delay', 'in-flight-attempts-progress-during-retry-delay'],
     'C10': ['panic-hook-restored', 'panic-hook-silenced-while-running'],
+    # an attempt that was started is driven to its end (so its after hook runs and its World is handed over) whatever else
+    # happens in the run - in particular when another scenario trips fail-fast while it is in flight
+    'C09': ['every-started-attempt-finishes'],
 }
 
 
@@ -91,6 +94,8 @@ def run(chk, prop, selected=None):
     names = ORACLE_OF[prop]
     obs = {}
     ws = worlds(chk.tier, prop)
+    if selected is not None:
+        ws = [(n, w) for n, w in ws if selected(n, w)]
     bound = 'the real execute() loop polled to completion (<= 40 polls) over %d worlds: 3-4 scenarios (serial / concurrent, rules, retry budget <= 1), limits 1, 2, unlimited, per-attempt durations 0..2 polls, every outcome assignment (symbolic)' % len(ws)
 
     def ob(name):
